@@ -42,7 +42,10 @@ type spec struct {
 	SyncOff bool `json:",omitempty"`
 }
 
-var moves = []string{"begin", "begin-immediate", "begin-exclusive", "write-small", "write-small", "write-spill", "cursor-open", "cursor-close", "r2-open", "r2-close", "commit", "commit", "rollback", "nothing"}
+var moves = []string{"begin", "begin-immediate", "begin-exclusive", "write-small", "write-small", "write-spill", "cursor-open", "cursor-close", "r2-open", "r2-close", "commit", "commit", "rollback", "nothing",
+	// another handle of THIS process parks inside a row callback (holding the
+	// process' SHARED lock, which blocks the writer's commit) / lets go
+	"own-hold", "own-release"}
 var reads = []string{"select", "select", "rowid", "indexed", "pk", "columns", "low-scan", "open-select"}
 
 func TestC07LockStates(t *testing.T) {
@@ -119,6 +122,23 @@ func run(r *vt.Run, t vt.TB, s spec) {
 		r.Harness(t, "open low: %v", err)
 	}
 	defer lo.Close()
+
+	// a third handle of this process that can park inside a read
+	own, err := sqlittle.Open(path)
+	if err != nil {
+		r.Harness(t, "open own: %v", err)
+	}
+	defer own.Close()
+	var ownRelease chan struct{}
+	var ownDone chan error
+	releaseOwn := func() {
+		if ownRelease != nil {
+			close(ownRelease)
+			<-ownDone
+			ownRelease, ownDone = nil, nil
+		}
+	}
+	defer releaseOwn()
 
 	// model of the writer
 	inTxn, wrote, spilled, cursorW, cursorR2, pendingFail := false, false, false, false, false, false
@@ -231,6 +251,32 @@ func run(r *vt.Run, t vt.TB, s spec) {
 					r.Harness(t, "commit: %v", err)
 				}
 			}
+		case "own-hold":
+			if ownRelease == nil {
+				rel, done, inside := make(chan struct{}), make(chan error, 1), make(chan bool, 1)
+				go func() {
+					first := true
+					err := own.Select("t", func(sqlittle.Row) {
+						if first {
+							first = false
+							inside <- true
+							<-rel
+						}
+					}, "a")
+					if first {
+						inside <- false
+					}
+					done <- err
+				}()
+				if <-inside {
+					ownRelease, ownDone = rel, done
+					classes["own-handle-parked-in-read"] = true
+				} else {
+					<-done // refused (a writer is ahead of us) or no rows: nothing is held
+				}
+			}
+		case "own-release":
+			releaseOwn()
 		case "rollback":
 			if inTxn {
 				if cursorW {
@@ -274,6 +320,9 @@ func run(r *vt.Run, t vt.TB, s spec) {
 		}
 		if pendingFail && seen == "PENDING" {
 			cls += "+commit-blocked"
+			if ownRelease != nil {
+				classes["state:PENDING+commit-blocked-by-our-own-handle"] = true
+			}
 		}
 		classes[cls] = true
 		if mustFail || (seen == "RESERVED" && journal) {
